@@ -127,6 +127,8 @@ type Case struct {
 	// dispatchers deliver them. The dispatcher of the Milvus pkg pinned in go.mod delivers messages WITHOUT a
 	// position (MqTtMsgStream no longer sets one), which is the default here.
 	MsgPositions bool              `json:"msg_positions"`
+	// RegDelayMs: the dispatcher takes that long to register the given source vchannel (a slow shard stream)
+	RegDelayMs  map[string]int     `json:"reg_delay_ms,omitempty"`
 	Serial      bool               `json:"serial_feed,omitempty"` // feed one pack at a time across all pchannels in a seeded order
 	FeedOrder   []string           `json:"feed_order,omitempty"`
 	Note        string             `json:"note,omitempty"`
